@@ -115,7 +115,13 @@ def parseSlots (bounded : Bool) : List Bytes → Option (List Nat)
         | none => none
       | _ => none
 
-/-- first pass of `parseClusterNodes`: per line (id, master id or none, slots) -/
+/-- `isUsableReplica`: the flags column of a replica's line; "fail?" is only the answering node's suspicion -/
+def usableReplica (flags : Bytes) : Bool :=
+  !((splitOn 44 flags).any fun f =>
+      f == [102, 97, 105, 108] || f == [110, 111, 97, 100, 100, 114] || f == [104, 97, 110, 100, 115, 104, 97, 107, 101])   -- fail, noaddr, handshake
+
+/-- first pass of `parseClusterNodes`: per line (id, master id or none, slots).  A replica that is no candidate for reads (409502f) keeps
+its line — a Go map entry under its id — but is attached to no master: its master id is recorded as the empty id, which no node has. -/
 def parseLines (bounded : Bool) : List Line → Option (List (Bytes × Option Bytes × List Nat))
   | [] => some []
   | fields :: rest =>
@@ -125,7 +131,8 @@ def parseLines (bounded : Bool) : List Line → Option (List (Bytes × Option By
       let addr := (splitOn 64 (fields.getD 1 [])).headD []
       if (splitOn 58 addr).length != 2 then none
       else if fields.getD 3 [] != [45] then
-        (parseLines bounded rest).map fun more => (fields.getD 0 [], some (fields.getD 3 []), []) :: more
+        (parseLines bounded rest).map fun more =>
+          (fields.getD 0 [], some (if usableReplica (fields.getD 2 []) then fields.getD 3 [] else []), []) :: more
       else match parseSlots bounded (fields.drop 8) with   -- a master without slots has no ninth field
         | none => none
         | some slots => (parseLines bounded rest).map fun more => (fields.getD 0 [], none, slots) :: more
